@@ -332,6 +332,18 @@ func (p *Payload) extractCriticalFieldsFromBytes(data []byte, traceIdFieldNames,
 
 		// Handle special trace ID and parent ID fields
 		if !handled && valueType == msgp.StrType {
+			// An ID field can also be a field the sampler reads (a rule such as
+			// "trace.parent_id not-exists", a FieldList entry). Its value is consumed
+			// here, so it has to be memoized here as well; otherwise it would end up in
+			// missingFields and look absent to the sampler.
+			memoizeIfKeyField := func(value string) {
+				if kidx, ok := sliceContains(samplingKeyFields, keyBytes); ok {
+					if _, seen := p.memoizedFields[samplingKeyFields[kidx]]; !seen {
+						keysFound++
+						p.Set(samplingKeyFields[kidx], value)
+					}
+				}
+			}
 			idx, ok := sliceContains(traceIdFieldNames, keyBytes)
 			if ok && idx < fieldTraceIdx {
 				// better ranked than any candidate seen so far
@@ -340,12 +352,18 @@ func (p *Payload) extractCriticalFieldsFromBytes(data []byte, traceIdFieldNames,
 				if err == nil && traceID != "" {
 					fieldTraceID, fieldTraceIdx = traceID, idx
 				}
+				if err == nil {
+					memoizeIfKeyField(traceID)
+				}
 				handled = true
 			} else if _, ok := sliceContains(parentIdFieldNames, keyBytes); ok {
 				var parentId string
 				parentId, remaining, err = msgp.ReadStringBytes(remaining)
 				if err == nil && parentId != "" {
 					p.MetaRefineryRoot.Set(false)
+				}
+				if err == nil {
+					memoizeIfKeyField(parentId)
 				}
 				handled = true
 			}
